@@ -349,7 +349,7 @@ func abstractPosAtom(atom, a, b, roleL string, lk locKeys) (string, bool, bool) 
 		return ""
 	}
 	lid := func(s string) string { // license id expression -> term
-		for _, pre := range []string{"*(*spdxexp.node).license("} {
+		for _, pre := range []string{"*(*spdxexp.node).license(", "(*spdxexp.node).license("} {
 			if strings.HasPrefix(s, pre) && strings.HasSuffix(s, ")") {
 				return term(s[len(pre) : len(s)-1])
 			}
